@@ -87,6 +87,9 @@ def generate(st):
         cfg['keys_int'] = True
         cfg['n_days'] = min(cfg['n_days'], 3)
     pool = KEYPOOL_I if cfg['keys_int'] else KEYPOOL_S
+    if not cfg['keys_int'] and sw.random() < 0.25:
+        pool = ['MSFT', 'aapl', 'IBM', 'goog', 'Bp', 'b']       # tickers in mixed case: string order is case sensitive
+        cfg['mixed_case_keys'] = True
 
     def keyset(maxn=5):
         if cfg.get('bigkeys') and not two_keys:
